@@ -220,6 +220,40 @@ func runC15(c *fw.Case) (o fw.Outcome) {
 		return
 	}
 	o.Count("function_comparisons", 3)
+	// every SHAPE of call the library admits: an output the caller does not want is passed as nil (F1: 3 shapes, F2345:
+	// 31 non-empty subsets); what is asked for must be right whatever else is left out
+	if c.Idx%8 == 3 {
+		for m := 1; m < 4; m++ {
+			var a, b []byte
+			if m&1 != 0 {
+				a = make([]byte, 8)
+			}
+			if m&2 != 0 {
+				b = make([]byte, 8)
+			}
+			if err := milenage.F1(opc, k, rnd, sqnNet, amf, a, b); err != nil || (a != nil && !bytes.Equal(a, wMacA)) || (b != nil && !bytes.Equal(b, wMacS)) {
+				o.Fail("f1", "F1 asked for outputs %02b only: f1=%x f1*=%x (err %v), TS 35.206 gives %x / %x", m, a, b, err, wMacA, wMacS)
+				return
+			}
+		}
+		want := [][]byte{wRes, wCk, wIk, wAk, wAkS}
+		for m := 1; m < 32; m++ {
+			outs := make([][]byte, 5)
+			for i := range outs {
+				if m&(1<<uint(i)) != 0 {
+					outs[i] = make([]byte, len(want[i]))
+				}
+			}
+			err := milenage.F2345(opc, k, rnd, outs[0], outs[1], outs[2], outs[3], outs[4])
+			for i := range outs {
+				if err != nil || (outs[i] != nil && !bytes.Equal(outs[i], want[i])) {
+					o.Fail("f2345", "F2345 asked for outputs %05b (res ck ik ak ak*, low bit first) only: output %d is %x (err %v), TS 35.206 gives %x", m, i, outs[i], err, want[i])
+					return
+				}
+			}
+			o.Count("output_subsets", 1)
+		}
+	}
 	// ---- generation
 	autn := make([]byte, 16)
 	gIk, gCk, gAk, gRes := make([]byte, 16), make([]byte, 16), make([]byte, 6), make([]byte, 8)
@@ -241,6 +275,34 @@ func runC15(c *fw.Case) (o fw.Outcome) {
 		ret = milenage.Milenage_check(opc, k, append([]byte(nil), sqnUE...), rnd, append([]byte(nil), a...), ik, ck, res, &rl, auts)
 		o.Count("autn_checks", 1)
 		return
+	}
+	if c.Idx%8 == 3 && fresh {
+		for m := 0; m < 7; m++ { // the valid AUTN checked by a caller that wants only some of RES / CK / IK
+			var bufs [3][]byte
+			for i, n := range []int{8, 16, 16} {
+				if m&(1<<uint(i)) != 0 {
+					bufs[i] = make([]byte, n)
+				}
+			}
+			rl := uint(0)
+			var rr int
+			func() {
+				defer func() {
+					if rec := recover(); rec != nil {
+						rr = -99
+					}
+				}()
+				rr = milenage.Milenage_check(opc, k, append([]byte(nil), sqnUE...), rnd, append([]byte(nil), autn...), bufs[2], bufs[1], bufs[0], &rl, make([]byte, 14))
+			}()
+			if rr == -99 {
+				continue // a nil buffer the unchanged library does not admit in this position: not judged
+			}
+			if rr != 0 || (bufs[0] != nil && !bytes.Equal(bufs[0], wRes)) || (bufs[1] != nil && !bytes.Equal(bufs[1], wCk)) || (bufs[2] != nil && !bytes.Equal(bufs[2], wIk)) {
+				o.Fail("valid-autn-rejected", "valid, fresh AUTN checked with output buffers %03b (res ck ik): return %d", m, rr)
+				return
+			}
+			o.Count("check_output_subsets", 1)
+		}
 	}
 	ret, cRes, cCk, cIk, auts := check(autn)
 	switch {
